@@ -343,6 +343,11 @@ def cases(rng, tier):
         ps = [q for q in (5, 4294967311, P_BIG, 13) if idx % q != 0]
         out.append(Case('cli_prime_decomp_multi', line('cli_prime_decomp_multi', f, ps), model=_lib.IMPL_ONLY, oracle=o_multi(O, f, ps),
                         always_oracle=True, tag='cli-multi'))
+        # several commands in one configuration share the parsed (polynomial, primes) input
+        small = [q for q in (5, 7, 13, 31) if idx % q != 0][:3]
+        for cmds in (['fmp', 'pd'], ['pd', 'pd'], ['pd', 'fmp', 'pd']):
+            out.append(Case('cli_seq', line('cli_seq', Id('pp'), f, small, [Id(c) for c in cmds]), model=_lib.IMPL_ONLY, oracle=_lib.o_cli_seq(len(cmds)),
+                            always_oracle=True, tag='cli-several-commands'))
     out += edge_cases(rng)
     return out
 
